@@ -15,7 +15,7 @@
     conforms to the declared argument types; when validation accepted the document, the
     observation equals the reference coercion (error <-> nothing called). *)
 From Coq Require Import List NArith ZArith Bool String.
-From ApiFu Require Import Base.Sexp Val.Values Val.CoerceModel Val.CoerceSpec Val.CoerceReasons.
+From ApiFu Require Import Base.Sexp Val.Values Val.FloatExact Val.CoerceModel Val.CoerceSpec Val.CoerceReasons.
 Import ListNotations.
 Open Scope string_scope.
 Open Scope list_scope.
@@ -308,6 +308,15 @@ Fixpoint gval_has_nil (g : gval) : bool :=
   | _ => false
   end.
 
+(** every JSON number is a well-formed binary64 in canonical form (CoerceSameValue.jnum_wf) *)
+Fixpoint jnum_wf_b (j : jval) : bool :=
+  match j with
+  | JNum d => f64_wf d
+  | JList l => forallb jnum_wf_b l
+  | JObj kvs => forallb (fun p : name * jval => jnum_wf_b (snd p)) kvs
+  | _ => true
+  end.
+
 Section Case.
   Variable E : env.
   Variable T : list (bytes * option bytes).
@@ -487,6 +496,7 @@ Definition check (c : sexp) : sexp :=
               if negb (env_closed E && forallb (fun ad => sty_closed E (in_type (snd ad))) argdefs) then v_bad "env-not-closed"
               else if negb (env_ok E && forallb (fun ad => default_ok E (snd ad)) argdefs) then v_bad "env-not-ok"
               else if negb (forallb (fun p => jval_ok (snd p)) raw && negb (has_dup (map fst raw))) then v_bad "variables-not-wf"
+              else if negb (forallb (fun p => jnum_wf_b (snd p)) raw) then v_bad "json-number-not-a-canonical-binary64"
               else if negb (forallb (fun s => ahas s T) strings) then v_bad "dt-table-incomplete"
               else if existsb (fun d => match vd_default d with Some l => match lit_vars l with [] => false | _ => true end | None => false end) defs
                    then v_bad "variable-in-default"
